@@ -123,12 +123,16 @@
   NECESSARY condition only: it pins neither the returned offset nor excludes the end-of-input option (for `"a  "` it holds
   at 1, 2 and 3; the model returns 1) — the statement "MoreBytes is reported at the start of the unfinished white space"
   is backed by tests, not by a theorem. `*_extends` state a bare existence of the completed buffer; that at most five /
-  six bytes are appended is in their proofs, not in their statements.
+  six bytes are appended is in their proofs, not in their statements. STRENGTHENED afterwards (`Sipsp.Proofs.AuditFixC`):
+  `moreBytes_iff` — `PVMoreAt` (= `PVMore` + the end-of-input option off in the white-space shape + `r` is the START of the
+  unfinished white space) characterises MoreBytes at `r` EXACTLY, both directions; `*_extends_explicit` state the appended
+  bytes (`B = b.extract 0 p ++ s`, `s.size ≤ 5` resp. 6).
 -/
 import Sipsp.Proofs.ParamSpec
 import Sipsp.Proofs.ShiftParams
 import Sipsp.Proofs.ParamSound
 import Sipsp.Proofs.ParamVerdicts
+import Sipsp.Proofs.AuditFixC
 
 namespace Sipsp.C17
 open Sipsp
@@ -803,5 +807,38 @@ theorem tokparam_badChar_local : type_of% @Sipsp.tokparam_badChar_local := @Sips
     the buffer): if the call returns `MoreBytes`, there are bytes `s` (at most six: a space, `a`, `"`, CR LF `x`) such that
     `b ++ s` holds a parameter of the grammar `PSParam` at `o`, accepted with `EOH` -/
 theorem tokparam_moreBytes_extends : type_of% @Sipsp.tokparam_moreBytes_extends := @Sipsp.tokparam_moreBytes_extends
+
+/-! ### MoreBytes characterised exactly (offset pinned); completion witnesses explicit (proved in `Sipsp.Proofs.AuditFixC`) -/
+
+/-- **[C17] `MoreBytes` at `r`, exactly**: for every buffer, start offset and option word, ParseTokenParam on a new
+    object returns `MoreBytes` with offset `r` IFF the pinned description `PVMoreAt b flags o r` holds -/
+theorem moreBytes_iff : type_of% @Sipsp.afc_moreBytes_iff := @Sipsp.afc_moreBytes_iff
+
+/-- **[C17] `MoreBytes` at `r` ⇒ the pinned description** (new object, every buffer, offset and option word): the text
+    `[o, r)` is the beginning of a parameter; either the end-of-input option is off, `r` is the start of white space cut
+    short by the end of the buffer (`r = o` or the byte before `r` is not SP / HT / CR / LF), or `r` is the end of the
+    buffer / a trailing back-slash inside an open quoted string -/
+theorem moreBytes_at : type_of% @Sipsp.afc_moreBytes_at := @Sipsp.afc_moreBytes_at
+
+/-- **[C17] completeness of the pinned description**: every text of the shape `PVMoreAt … r` is suspended with
+    `MoreBytes` at `r` -/
+theorem moreBytes_complete : type_of% @Sipsp.afc_moreBytes_complete := @Sipsp.afc_moreBytes_complete
+
+/-- the pinned description implies the one of ParamVerdicts -/
+theorem moreBytes_at_implies_more : type_of% @Sipsp.PVMoreAt.pvMore := @Sipsp.PVMoreAt.pvMore
+
+/-- **the text before a rejected byte is a proper prefix of a parameter of the grammar, witness explicit**: if `BadChar`
+    is reported at `p`, then `p` is a position of the buffer and there are at most FIVE bytes `s` such that the buffer
+    `b[0:p] ++ s` — which has the bytes of `b` below `p` — holds a parameter of the grammar `PSParam` at `o`, accepted
+    with `EOH` -/
+theorem badChar_prefix_extends_explicit : type_of% @Sipsp.afc_badChar_prefix_extends := @Sipsp.afc_badChar_prefix_extends
+
+/-- … from the call: `BadChar` at `p` on a new object -/
+theorem badChar_call_extends_explicit : type_of% @Sipsp.afc_badChar_call_extends := @Sipsp.afc_badChar_call_extends
+
+/-- **a suspended text is a proper prefix of a parameter of the grammar, with the size of the witness**: if the call
+    (no end-of-input option, start offset inside the buffer) returns `MoreBytes`, there are at most SIX bytes `s` such
+    that `b ++ s` holds a parameter of the grammar `PSParam` at `o`, accepted with `EOH` -/
+theorem moreBytes_extends_explicit : type_of% @Sipsp.afc_moreBytes_extends := @Sipsp.afc_moreBytes_extends
 
 end Sipsp.C17
